@@ -49,6 +49,8 @@ OPS = {
     "inv-many": ("".join(f"[](inv:#n{i}*)\n" for i in range(0, 262, 1)) + "\n[](inv:#abc) [](inv:#ABC) [](inv:#a*)\n", {}),
     "inv-few": ("[](inv:#abc) [](inv:#ABC) [](inv:#AB*) [](inv:#ab*)\n", {}),
     "subst": ("---\nmyst:\n  substitutions:\n    a: '{{b}}'\n    b: '{{a}}'\n    c: '{{ 1/0 }}'\n    d: ok\n---\n{{a}} {{c}} {{d}}\n", {}),
+    # a cycle whose expression also names an innocent key (used BEFORE the cycle: a guard that outlives the parse shows in the next one)
+    "subst-cycle-plus": ("---\nmyst:\n  substitutions:\n    loop: '{{ loop ~ d }}'\n    d: ok\n---\n{{d}} {{loop}}\n", {}),
     "subst2": ("---\nmyst:\n  substitutions:\n    a: A\n---\n{{a}} {{d}}\n", {}),
     "headings": ("# a\n\n## a\n\n[](#a-1)\n\n[^x]: y\n", {}),
     "headings2": ("# a\n\n[](#a) [](#a-1)\n\n[^x]: z\n\nw[^x]\n", {}),
